@@ -27,9 +27,33 @@ Theorem C01_same_behaviour_as_reference :
 Proof. exact same_behaviour. Qed.
 Print Assumptions C01_same_behaviour_as_reference.
 
-(* the hypotheses are satisfiable: a data semantics with pure truth tests exists *)
-Example C01_pure_truth_inhabited : pure_truth tdata.
-Proof. exact tdata_pure_truth. Qed.
+(* execution transparency proper: with analyses whose hooks return nothing, what the instrumented program does
+   to the outcome, the world, the globals, the frames and the handled exceptions is what the original does *)
+Theorem C01_transparency :
+  forall (D : data) (analyses : list (analysis (Sem.earg (d_val D)))) (modpath : string)
+         (H : list string) (p : program) (fuel : nat) (s : state D),
+    observing_analyses D analyses -> pure_truth D -> list_building_pure D ->
+    src_prog p = true -> ok_prog H p = true -> tk_prog H p = true ->
+    visible D (inst_run D analyses modpath H fuel p s) = visible D (orig_run D analyses modpath fuel p s).
+Proof. exact instrumented_is_transparent. Qed.
+Print Assumptions C01_transparency.
+
+(* the reference semantics is transparent for every data semantics, pure truth tests or not *)
+Theorem C01_reference_is_transparent :
+  forall (D : data) (analyses : list (analysis (Sem.earg (d_val D)))) (modpath : string)
+         (H : list string) (p : program) (fuel : nat) (s : state D),
+    observing_analyses D analyses -> list_building_pure D -> bool_truth D ->
+    src_prog p = true -> tk_prog H p = true ->
+    visible D (ref_run D analyses modpath H fuel p s) = visible D (orig_run D analyses modpath fuel p s).
+Proof. exact reference_is_transparent. Qed.
+Print Assumptions C01_reference_is_transparent.
+
+(* the hypotheses are satisfiable: a data semantics with pure truth tests and pure list building exists, and the
+   concrete data semantics of the correspondence check meets the hypotheses of the second theorem *)
+Example C01_pure_truth_inhabited : pure_truth tdata /\ list_building_pure tdata.
+Proof. exact (conj tdata_pure_truth tdata_list_pure). Qed.
+Example C01_concrete_data_meets_reference_hypotheses : forall fn, list_building_pure (cdata fn) /\ bool_truth (cdata fn).
+Proof. intros fn. exact (conj (cdata_list_pure fn) (cdata_bool_truth fn)). Qed.
 
 (* the full statement (no guard) is false of the faithful model: one witness per guard clause, on the concrete
    data semantics that mirrors the support library of the generated programs *)
